@@ -32,6 +32,12 @@ pub enum Policy {
     /// strict static priorities (pre-emptive): patterns over thread path ids, highest priority first.
     /// A pattern is an exact path id ("0.1") or a prefix with ".*" ("0.1.1.*").
     Prio(Vec<String>),
+    /// round robin: after every step the next enabled thread in creation order (everybody advances evenly, so
+    /// whatever each thread holds on to is held by all of them at once: the schedule of resource peaks)
+    RR,
+    /// static priorities like `Prio`, but threads of equal rank (in particular all threads no pattern names) take
+    /// turns: the producers run ahead as the order says, and whoever is left advances evenly
+    PrioRR(Vec<String>),
 }
 
 #[derive(Clone, Debug, Serialize, Deserialize, PartialEq)]
@@ -700,7 +706,14 @@ impl<'a> Sup<'a> {
             libc::SYS_writev => on_fd!("writev"),
             libc::SYS_preadv => on_fd!("preadv"),
             libc::SYS_pwritev => on_fd!("pwritev"),
-            libc::SYS_lseek => on_fd!("lseek"),
+            libc::SYS_lseek => {
+                // SEEK_DATA / SEEK_HOLE are a facility of their own (a file system may not have them)
+                on_fd!(match a[2] as i32 {
+                    libc::SEEK_DATA => "lseek:DATA",
+                    libc::SEEK_HOLE => "lseek:HOLE",
+                    _ => "lseek",
+                })
+            }
             libc::SYS_ftruncate => on_fd!("ftruncate"),
             libc::SYS_fallocate => on_fd!("fallocate"),
             libc::SYS_fsync => on_fd!("fsync"),
@@ -1535,6 +1548,19 @@ impl<'a> Sup<'a> {
                 } else {
                     *v.last().unwrap()
                 }
+            }
+            Policy::RR => {
+                let after = self.cur.map(|c| c + 1).unwrap_or(0);
+                let mut v: Vec<usize> = cand.to_vec();
+                v.sort();
+                *v.iter().find(|&&x| x >= after).unwrap_or(&v[0])
+            }
+            Policy::PrioRR(pats) => {
+                let best = cand.iter().map(|&x| Self::prio_rank(pats, &self.th[x].path_s)).min().unwrap();
+                let mut v: Vec<usize> = cand.iter().cloned().filter(|&x| Self::prio_rank(pats, &self.th[x].path_s) == best).collect();
+                v.sort();
+                let after = self.cur.map(|c| c + 1).unwrap_or(0);
+                *v.iter().find(|&&x| x >= after).unwrap_or(&v[0])
             }
             Policy::Prio(pats) => {
                 let mut v: Vec<usize> = cand.to_vec();
